@@ -8,8 +8,10 @@ package props
 // and demand the verdict of a fresh call.
 
 import (
+	"fmt"
 	"strings"
 	"sync"
+	"sync/atomic"
 
 	psatoken "github.com/veraison/psatoken"
 	"github.com/veraison/psatoken/encoding"
@@ -123,7 +125,8 @@ func pollute(kind int) {
 		}
 		if x := (psatoken.Profile2{}).GetClaims(); x != nil {
 			if c2, ok := x.(*psatoken.P2Claims); ok && c2.Profile != nil {
-				_ = c2.Profile.Set("1.2.3.4")
+				// a different value every time: whatever is shared with later objects changes on every call
+				_ = c2.Profile.Set(fmt.Sprintf("1.2.3.%d", polluteCounter.Add(1)))
 			}
 		}
 		if x, err := psatoken.NewClaims(refmodel.P1Name); err == nil {
@@ -146,6 +149,8 @@ func pollute(kind int) {
 		_ = ev.Verify(fixtures.Get("ES256", 2).Pub)
 	}
 }
+
+var polluteCounter atomic.Int64
 
 var polluteTok []byte
 var polluteOnce sync.Once
